@@ -1562,6 +1562,8 @@ func (mgr *Manager) convertStreamJob(allConverters []*converters.CachedConverter
 					results <- result{job, err}
 					return
 				}
+				// always report a result, the loop below waits for one per started job
+				results <- result{job, fmt.Errorf("stream %d not found", job.streamID)}
 			}()
 		}
 
